@@ -576,4 +576,9 @@ theorem undoFold_frame (e : Env) (ev : List Nat) (s : St) :
     obtain ⟨u1, u2, u3⟩ := undoTx_frame e s (e.tx t)
     exact ⟨a1.trans u1, a2.trans u2, a3.trans u3⟩
 
+theorem dependsOn_parent_mem (e : Env) (pool : List Nat) (c p : Nat) (h : dependsOn e pool c p = true) : p ∈ pool := by
+  unfold dependsOn at h
+  simp only [Bool.and_eq_true, List.contains_eq_mem, decide_eq_true_eq] at h
+  exact h.1.2
+
 end XV.Chain
